@@ -579,7 +579,7 @@ Proof. exists pol_id, (mkCfg TCP false true), late_witness. vm_compute. split; r
 Definition demo : list event :=
   [EStart; EReply keep false; EReply keep false;
    EData Client [x61]; EData Server [x62]; EReply (mkAction (Some [x41; x42]) false) false; EReply keep false;
-   EClosed Client; EData Server [x63]; EInject false [x64]; EReply keep true; EReply keep false;
+   EClosed Client; EData Server [x63]; EInject false [x64]; EReply (mkAction None true) false; EReply keep false;
    EClosed Server; EReply keep false].
 Lemma demo_run :
   let c := mkCfg TCP false false in
